@@ -512,28 +512,28 @@ Proof.
   intros rs c h Hwf Hc. unfold is_external.
   destruct (cache_get c h) as [v|] eqn:G.
   - cbn [fst snd]. rewrite (Hc h v G). auto.
-  - assert (Hext : forall v,
-      (if is_ip_literal h
-       then match h with IPv4 a b c' d => Some (is_external_ip a b c' d) | _ => Some false end
-       else match rs h with RQuad a b c' d => Some (is_external_ip a b c' d) | _ => None end) = Some v ->
-      v = external rs h).
-    { intros v Hv. unfold external, target.
+  - match goal with |- context [match ?X with Some _ => _ | None => _ end] =>
+      remember X as cmp eqn:Cmp end.
+    assert (Hext : forall v, cmp = Some v -> v = external rs h).
+    { intros v Hv. subst cmp. unfold external, target.
       destruct (is_ip_literal h) eqn:L.
       - destruct h; try discriminate; inversion Hv; subst; auto.
         cbn in L. rewrite is_external_ip_exact by exact L. reflexivity.
       - destruct (rs h) as [a b c' d| |] eqn:R; try discriminate.
         inversion Hv; subst. rewrite is_external_ip_exact by (eapply Hwf; eauto). reflexivity. }
-    destruct (if is_ip_literal h then _ else _) as [v|] eqn:Cmp.
+    assert (Hnone : cmp = None -> external rs h = false).
+    { intros Hv. subst cmp. unfold external, target.
+      destruct (is_ip_literal h) eqn:L.
+      - destruct h; discriminate.
+      - destruct (rs h); try discriminate; reflexivity. }
+    destruct cmp as [v|].
     + cbn [fst snd]. rewrite (Hext v eq_refl). split; [reflexivity|].
       intros h' v' G'. cbn [cache_get] in G'.
       destruct (host_eqb h h') eqn:E.
-      * apply host_eqb_eq in E. subst h'. inversion G'; subst. apply Hext. reflexivity.
+      * apply host_eqb_eq in E. subst h'. inversion G'; subst. reflexivity.
       * apply Hc. exact G'.
     + cbn [fst snd]. split; [|exact Hc].
-      f_equal. unfold external, target.
-      destruct (is_ip_literal h) eqn:L.
-      * destruct h; discriminate.
-      * destruct (rs h); try discriminate; reflexivity.
+      rewrite (Hnone eq_refl). reflexivity.
 Qed.
 
 Lemma is_allowed_spec : forall f rs c h hdr,
@@ -635,10 +635,11 @@ Lemma run_hook_is_run_calls : forall f l s c now,
   run_hook f s c now l = map hob_of_entry (run_calls s now (calls_of f s c now l)).
 Proof.
   intros f l. induction l as [|ev l IH]; intros s c now; [reflexivity|].
-  destruct ev as [h hdr rs o | d]; cbn [run_hook calls_of run_calls map].
+  destruct ev as [h hdr rs o | d]; cbn [run_hook calls_of].
   - pose proof (hook_step_is_call_step f s c now h hdr rs o) as H. cbn zeta in H.
     destruct (hook_step f s c now h hdr rs o) as [[s' c'] b].
+    cbn [run_calls].
     destruct (call_step s now (decided_true (snd (is_allowed f c h hdr rs))) o) as [s'' [rt ra]].
-    destruct H as [-> ->]. cbn [run_calls map]. f_equal. apply IH.
-  - apply IH.
+    destruct H as [Hs Hb]. subst s'' b. cbn [map]. f_equal. apply IH.
+  - cbn [run_calls]. apply IH.
 Qed.
